@@ -520,13 +520,109 @@ fn conv_strategy() -> impl Strategy<Value = ConvCase> {
         .prop_map(|((op, addr, sign_type, pages, page_seed, bus_error_kind), script)| ConvCase { op, addr, sign_type, pages, page_seed, script, bus_error_kind })
 }
 
+/// A page switch on a bus whose every exchange takes real time (a slow line, a sign that takes seconds to flip): the
+/// controller keeps polling for as long as the sign reports 'in progress', however long that takes on the clock.
+#[derive(Serialize, Deserialize, Debug, Clone, PartialEq, Eq, Hash)]
+pub struct SlowCase {
+    pub op: OpKind,
+    pub addr: u16,
+    /// number of in-progress reports before the final state
+    pub polls: u32,
+    /// real time each bus exchange takes, in milliseconds
+    pub delay_ms: u64,
+}
+
+pub fn check_slow(c: &SlowCase) -> Result<(), String> {
+    struct SlowBus {
+        replies: std::collections::VecDeque<Reply>,
+        delay: std::time::Duration,
+        sent: Vec<M>,
+    }
+    impl SignBus for SlowBus {
+        fn process_message<'a>(&mut self, message: Message<'_>) -> Result<Option<Message<'a>>, Box<dyn std::error::Error + Send + Sync>> {
+            self.sent.push(M::from_message(&message));
+            std::thread::sleep(self.delay);
+            match self.replies.pop_front() {
+                Some(Reply::Msg(m)) => Ok(Some(m.to_message())),
+                Some(Reply::None) => Ok(None),
+                _ => Err("script exhausted".into()),
+            }
+        }
+    }
+    let (trigger, req, busy, done) = match c.op {
+        OpKind::ShowLoadedPage => (S_PAGE_LOADED, O_SHOW_LOADED_PAGE, S_PAGE_SHOW_IN_PROGRESS, S_PAGE_SHOWN),
+        _ => (S_PAGE_SHOWN, O_LOAD_NEXT_PAGE, S_PAGE_LOAD_IN_PROGRESS, S_PAGE_LOADED),
+    };
+    // the opening query finds the sign in the state the operation starts from; the request is acknowledged
+    let mut replies: Vec<Reply> = vec![Reply::Msg(M::Report(c.addr, trigger)), Reply::Msg(M::Ack(c.addr, req))];
+    for _ in 0..c.polls {
+        replies.push(Reply::Msg(M::Report(c.addr, busy)));
+    }
+    replies.push(Reply::Msg(M::Report(c.addr, done)));
+    let block = BLOCKS[5];
+    let task = Task { op: c.op, addr: c.addr, block: &block, pages: &[] };
+    let (want_msgs, want_out) = reference(&task, &replies);
+    if want_out != Some(Outcome::Ok) || want_msgs.len() != replies.len() {
+        return Err(format!("harness: the slow-bus script does not describe a successful page switch ({want_out:?}, {} messages for {} replies)", want_msgs.len(), replies.len()));
+    }
+    let bus = Rc::new(RefCell::new(SlowBus { replies: replies.iter().cloned().collect(), delay: std::time::Duration::from_millis(c.delay_ms), sent: vec![] }));
+    let sign = Sign::new(bus.clone(), Address(c.addr), TYPES[5].0);
+    let started = std::time::Instant::now();
+    let result = catch(|| match c.op {
+        OpKind::ShowLoadedPage => sign.show_loaded_page().map(|_| Outcome::Ok),
+        _ => sign.load_next_page().map(|_| Outcome::Ok),
+    })
+    .map_err(|p| format!("the controller panicked: {p}"))?;
+    let took = started.elapsed();
+    let outcome = match result {
+        Ok(o) => o,
+        Err(SignError::Bus { .. }) => Outcome::ErrBus,
+        Err(_) => Outcome::ErrUnexpected,
+    };
+    let sent = bus.borrow().sent.clone();
+    if sent != want_msgs || Some(outcome) != want_out {
+        return Err(format!(
+            "on a bus whose exchanges take {} ms each ({} in-progress reports, {:.1} s in all) the controller sent {} messages and ended {:?}; the documented protocol prescribes {} messages and {:?}",
+            c.delay_ms,
+            c.polls,
+            took.as_secs_f64(),
+            sent.len(),
+            outcome,
+            want_msgs.len(),
+            want_out
+        ));
+    }
+    Ok(())
+}
+
 pub fn run(ctx: &Ctx, invariants_only: bool) {
+    // (runs beside everything else: it sleeps, it does not compute)
+    let slow_cases: Vec<SlowCase> = if invariants_only {
+        vec![]
+    } else if ctx.tier == crate::engine::Tier::Thorough {
+        vec![
+            SlowCase { op: OpKind::ShowLoadedPage, addr: 3, polls: 7, delay_ms: 900 },
+            SlowCase { op: OpKind::LoadNextPage, addr: 0xFFFF, polls: 3, delay_ms: 4_000 },
+            SlowCase { op: OpKind::ShowLoadedPage, addr: 0x0100, polls: 120, delay_ms: 250 },
+            SlowCase { op: OpKind::LoadNextPage, addr: 7, polls: 1, delay_ms: 31_000 },
+        ]
+    } else {
+        vec![SlowCase { op: OpKind::ShowLoadedPage, addr: 3, polls: 5, delay_ms: 900 }, SlowCase { op: OpKind::LoadNextPage, addr: 0xFFFF, polls: 1, delay_ms: 2_000 }]
+    };
+    let slow_enabled = ctx.part_enabled("slow-bus-page-switch");
+    let slow_handles: Vec<_> = slow_cases
+        .iter()
+        .cloned()
+        .filter(|_| slow_enabled)
+        .map(|c| std::thread::spawn(move || (c.clone(), check_slow(&c))))
+        .collect();
+
     run_tree(ctx, invariants_only);
-    run_generated(ctx, "random-scripts", ctx.tier.pick(60_000, 2_000_000), conv_strategy, |c, st| check_conversation(c, invariants_only, st));
+    run_generated(ctx, "random-scripts", ctx.tier.pick(400_000, 4_000_000), conv_strategy, |c, st| check_conversation(c, invariants_only, st));
     run_generated(
         ctx,
         "sequences",
-        ctx.tier.pick(40_000, 1_000_000),
+        ctx.tier.pick(250_000, 2_000_000),
         || {
             (
                 conv_strategy(),
@@ -540,6 +636,26 @@ pub fn run(ctx: &Ctx, invariants_only: bool) {
         |c, st| check_sequence(c, invariants_only, st),
     );
     run_logged(ctx, invariants_only);
+
+    // collect the slow-bus cases started at the top
+    if !slow_handles.is_empty() {
+        let mut st = Stats::new();
+        for h in slow_handles {
+            match h.join() {
+                Ok((c, r)) => {
+                    st.eval();
+                    st.nontrivial(h64(&c));
+                    st.class("slow-bus:page-switch-polling");
+                    if let Err(m) = r {
+                        ctx.fail("slow-bus-page-switch", serde_json::to_value(&c).unwrap(), m);
+                    }
+                }
+                Err(_) => ctx.inconclusive("a slow-bus worker thread died".into()),
+            }
+        }
+        ctx.merge("slow-bus-page-switch", st);
+        ctx.part_done("slow-bus-page-switch", true, json!({"cases": slow_cases, "what": "page-switch polling on a bus whose exchanges take 0.25-31 s of real time each; the controller must keep polling while the sign reports 'in progress'"}));
+    }
 }
 
 pub fn run_logged(ctx: &Ctx, invariants_only: bool) {
@@ -549,6 +665,10 @@ pub fn run_logged(ctx: &Ctx, invariants_only: bool) {
 }
 
 pub fn replay(part: &str, case: &Value, invariants_only: bool) -> Result<(), String> {
+    if part == "slow-bus-page-switch" {
+        let c: SlowCase = serde_json::from_value(case.clone()).map_err(|e| format!("bad case: {e}"))?;
+        return check_slow(&c);
+    }
     if part == "sequences" {
         let c: SeqCase = serde_json::from_value(case.clone()).map_err(|e| format!("bad case: {e}"))?;
         return check_sequence(&c, invariants_only, &mut Stats::new());
